@@ -19,8 +19,11 @@ macro_rules! playback_tests {
     };
 }
 
-mod util;
+pub(crate) use playback_tests;
+
+pub(crate) mod util;
 
 mod geno;
 mod index;
 mod view;
+mod fold;
